@@ -834,9 +834,20 @@ def _worker(conn, tasks, repo):
         conn.send(("done", None))
 
 
+def _cpu_seconds(pid):
+    """user + system CPU time of a process so far (from /proc), or None"""
+    try:
+        with open(f"/proc/{pid}/stat") as f:
+            parts = f.read().rsplit(")", 1)[1].split()
+        return (int(parts[11]) + int(parts[12])) / os.sysconf("SC_CLK_TCK")
+    except Exception:  # noqa: BLE001
+        return None
+
+
 def supervise(tasks, nproc=12, deadline=25.0):
-    """Run tasks in worker processes; a task that does not finish within `deadline` seconds of wall time is killed and
-    recorded as outcome "timeout".  Returns {tid: event}."""
+    """Run tasks in worker processes; a task that has used `deadline` seconds of processor time without finishing (or has not
+    finished after ten times as much wall time - a run that sleeps or blocks) is killed and recorded as outcome "timeout".
+    Processor time, not wall time: on a loaded machine a run that needs three seconds may take thirty.  Returns {tid: event}."""
     _TIMEOUTS.clear()
     ctx = mp.get_context("fork")
     results = {}
@@ -859,7 +870,7 @@ def supervise(tasks, nproc=12, deadline=25.0):
                 except EOFError:
                     msg = ("done", None)
                 if msg[0] == "start":
-                    x["cur"], x["t0"] = msg[1], time.time()
+                    x["cur"], x["t0"], x["c0"] = msg[1], time.time(), _cpu_seconds(x["p"].pid)
                 elif msg[0] == "end":
                     results[msg[1]] = msg[2]
                     x["cur"] = None
@@ -871,7 +882,8 @@ def supervise(tasks, nproc=12, deadline=25.0):
                     results[x["cur"]] = {"outcome": "crash", "cpu_ms": 0, "peak_kb": 0, "input_kb": 0, "request_kb": 0, "name": ""}
                 x["done"] = True
                 _respawn(ctx, procs, x, results)
-            elif not x["done"] and x["cur"] is not None and time.time() - x["t0"] > deadline:
+            elif not x["done"] and x["cur"] is not None and time.time() - x["t0"] > deadline and (
+                    time.time() - x["t0"] > 10 * deadline or x.get("c0") is None or (_cpu_seconds(x["p"].pid) or 1e9) - x["c0"] > deadline):
                 x["p"].kill()
                 x["p"].join()
                 results[x["cur"]] = {"outcome": "timeout", "cpu_ms": int(deadline * 1000), "peak_kb": 0, "input_kb": 0, "request_kb": 0, "name": ""}
